@@ -157,6 +157,18 @@ TEXT_RULE = ("cases are generated from one xoshiro256** state seeded by VERIF_SE
              "non-trivial when its oracle is applicable (spec not n/a) and distinct by its full case line")
 
 PROPS = {
+    "C03": {
+        "rule": "G_prog well-typed programs (any order of declarations, nested array types, reference parameters, nested control flow, "
+                "layouts with comments): SPECDIAG (implementation publishes no diagnostic; the independent Lean static-semantics "
+                "specification Spec/Typing.lean over the independent grammar derivation confirms well-typedness), NEW (tree with every "
+                "diagnostic, table, published byte ranges: implementation vs model); per program 3 single-fault variants out of 29 rule "
+                "classes (all 27 build/semantic message kinds except MainIsMissing, unary minus on a non-integer, missing ';' and ')'), "
+                "each a template statement/declaration inserted without removing anything: JUDGEFAULT (exactly the expected rule is "
+                "reported, on a range overlapping the culprit tokens, and no other rule). " + TEXT_RULE,
+        "unproved_parts": ["welltyped_no_diagnostics (Typing.wellTyped p -> diagnostics = []) and the per-rule fault theorems are evaluated "
+                           "(SPECDIAG/JUDGEFAULT) on the implementation, with the model tied by NEW; not yet theorems",
+                           "MainIsMissing has no construct to lie on and is not injected"],
+    },
     "C01": {
         "rule": "initial documents: G_prog programs (plain and with comments), syntactically broken programs, lexeme sequences, Unicode "
                 "soup; histories of 1-4 edits (2/3 token-aligned: insert/delete/replace whole tokens, statements, comment lines; 1/3 "
